@@ -205,43 +205,55 @@ def r_append(ctx):
     ctx.check(ki is not None and ki[0] == 'item', rule, 'append/key', c.loc(), 'appends under Key::item(self.index, item)',
               'append_item writes under %s' % show(c.arg_term(k)))
     arms = paths.result_arms(f, c)
-    if not ctx.need('err' in arms and 'ok' in arms, rule, 'match on the append result', c.loc()):
+    if not ctx.need('err' in arms and 'ok' in arms, rule, 'success / failure continuations of the append', c.loc()):
         return
-    # error arm: KeyExist -> InvalidItemAppend, anything else -> the error itself
-    rets = paths.ret_assigns(f)
-    app = [(b, t) for b, k2, t in rets if k2 == 'err' and paths.err_variant(t) == 'InvalidItemAppend']
-    prop = [(b, t) for b, k2, t in rets if k2 in ('err', 'residual') and paths.mentions_call(t, c.bb)]
-    good = bool(app) and all(b in f.reachable(arms['err']) and b not in f.reachable(arms['ok']) for b, t in app)
-    # the InvalidItemAppend return is guarded by the Mdb(KeyExist) pattern: two nested discriminant tests on the error
+    # where is the error mapped?  in this function (match arms) or in a closure given to map_err on the put result
+    mapper = None
+    via = arms.get('via')
+    if via is not None:
+        vc = f.call_at(via)
+        if vc is not None and vc.callee.endswith('::map_err') and len(vc.args) == 2:
+            ct = strip(vc.arg_term(1))
+            if ct[0] == 'closure' and F.fn(ct[1]) is not None:
+                mapper = F.fn(ct[1])
+    if mapper is None:
+        g = f
+        is_err = lambda t: paths.mentions_call(t, c.bb)
+        rets = paths.ret_assigns(g)
+        app = [(b, t) for b, k2, t in rets if k2 == 'err' and paths.err_variant(t) == 'InvalidItemAppend']
+        prop = [(b, t) for b, k2, t in rets if k2 in ('err', 'residual') and is_err(t)]
+        in_err_arm = all(b in f.reachable(arms['err']) and b not in f.reachable(arms['ok']) for b, t in app)
+    else:
+        g = mapper
+        is_err = lambda t: any(x[0] == 'arg' and x[1] == 2 for x in walk(t))
+        rets = paths.ret_assigns(g)
+        app = [(b, t) for b, k2, t in rets if paths.err_variant(t) == 'InvalidItemAppend']
+        prop = [(b, t) for b, k2, t in rets if paths.err_variant(t) != 'InvalidItemAppend' and is_err(t)]
+        in_err_arm = True
     guards = []
     for b, t in app:
-        for s in paths.controlling_switches(f, b):
-            for x in f.succ(s):
-                if b in f.reachable(x):
-                    e = paths.edge_cond(f, s, x)
-                    if e and e[0] == 'disc' and paths.mentions_call(e[1], c.bb):
-                        guards.append((show(e[1]), tuple(e[2])))
-    pats = ' '.join(g[0] for g in guards)
-    ctx.check(good and 'Mdb' in pats and len(guards) >= 3, rule, 'append/keyexist-mapping', c.loc(),
-              'Err(Mdb(KeyExist)) => InvalidItemAppend (guards: %d discriminant tests on the put error)' % len(guards),
+        for s0, x0, e in paths.controlling_conds(g, b):
+            if e[0] == 'disc' and is_err(e[1]):
+                guards.append((show(e[1]), tuple(e[2])))
+    pats = ' '.join(x[0] for x in guards)
+    ctx.check(bool(app) and in_err_arm and 'Mdb' in pats and len(guards) >= 2, rule, 'append/keyexist-mapping', c.loc(),
+              'Err(Mdb(KeyExist)) => InvalidItemAppend (guards: %d discriminant tests on the put error%s)' % (len(guards), ', in the map_err closure' if mapper else ''),
               'append_item: InvalidItemAppend is not returned exactly for Err(heed::Error::Mdb(MdbError::KeyExist)) (guards seen: %s)' % guards[:4])
-    # KeyExist discriminant value: compare with the enum's variant index from the pattern text is not possible for
-    # foreign enums; the variant name appears in the downcast chain instead
-    ctx.check(bool(prop) and all(b in f.reachable(arms['err']) for b, t in prop), rule, 'append/other-errors-propagated', c.loc(),
+    ctx.check(bool(prop), rule, 'append/other-errors-propagated', c.loc(),
               'other put errors are returned to the caller', 'append_item drops or rewrites put errors other than KeyExist')
-    kexist = any('KeyExist' in g[0] for g in guards) or _keyexist_discr(f, c)
+    kexist = any('KeyExist' in x[0] for x in guards) or _keyexist_discr(g, is_err)
     ctx.check(kexist, rule, 'append/keyexist-variant', c.loc(), 'the tested MdbError variant is KeyExist',
               'append_item tests another MdbError variant than KeyExist')
 
 
-def _keyexist_discr(f, c):
+def _keyexist_discr(g, is_err):
     """the innermost discriminant test on the put error selects MdbError::KeyExist (variant index 0)"""
-    for b in f.live_blocks():
-        sw = paths.switch_at(f, b)
+    for b in g.live_blocks():
+        sw = paths.switch_at(g, b)
         if sw is None:
             continue
-        d = f.term(sw['discr'])
-        if d[0] == 'discr' and paths.mentions_call(d[1], c.bb) and 'Mdb' in show(d[1]):
+        d = g.term(sw['discr'])
+        if d[0] == 'discr' and is_err(d[1]) and 'Mdb' in show(d[1]):
             vals = [int(v) for v, t in sw['targets']]
             return vals == [0]
     return False
